@@ -46,7 +46,7 @@ package network
 //@ func (*Driver).escalate [C04 C11 C12]
 //@   requires RI(d.Channel.Q) && d.Channel.PromptSearchDepth >= 0
 //@   ensures RI(d.Channel.Q)
-//@   modifies wire, rd, sent, quiet, echoed, optlog, alloc(), all(util.Queue.queue), all(util.Queue.depth)
+//@   modifies wire, rd, sent, quiet, echoed, optlog, alloc(), all(util.Queue.queue), all(util.Queue.depth), chans()
 //@   ensures #plain-escalate-command !(level(d, target).EscalateAuth && d.AuthSecondary != "") ==> sent == old(sent) ++ strs(level(d, target).Escalate)
 //@   at call SendInteractive#1 assert #escalation-dialogue len(arg0) == 2 && arg0[0].ChannelInput == level(d, target).Escalate && arg0[0].ChannelResponse == level(d, target).EscalatePrompt && !arg0[0].HideInput && arg0[1].ChannelInput == d.AuthSecondary && arg0[1].HideInput
 //@   at call SendInteractive#1 assert #secret-only-with-auth level(d, target).EscalateAuth && d.AuthSecondary != ""
@@ -59,7 +59,7 @@ package network
 //@ func (*Driver).deescalate [C04]
 //@   requires RI(d.Channel.Q) && d.Channel.PromptSearchDepth >= 0
 //@   ensures RI(d.Channel.Q)
-//@   modifies wire, rd, sent, quiet, echoed, optlog, alloc(), all(util.Queue.queue), all(util.Queue.depth)
+//@   modifies wire, rd, sent, quiet, echoed, optlog, alloc(), all(util.Queue.queue), all(util.Queue.depth), chans()
 //@   ensures #deescalate-command sent == old(sent) ++ strs(level(d, target).Deescalate)
 
 //@ func NewOperation [C19 C04]
@@ -76,7 +76,7 @@ package network
 //@ func (*Driver).AcquirePriv [C04 C05]
 //@   requires RI(d.Channel.Q) && d.Channel.PromptSearchDepth >= 0
 //@   ensures RI(d.Channel.Q)
-//@   modifies wire, rd, sent, quiet, echoed, optlog, acquired, d.CurrentPriv, alloc(), all(util.Queue.queue), all(util.Queue.depth)
+//@   modifies wire, rd, sent, quiet, echoed, optlog, acquired, d.CurrentPriv, alloc(), all(util.Queue.queue), all(util.Queue.depth), chans()
 //@   at return set acquired = (result == nil ? target : "")
 //@   ensures #unknown-target-refused-before-anything-is-sent !has(d.PrivilegeLevels, target) ==> isErr(result, util.ErrPrivilegeError) && sent == old(sent) && wire == old(wire)
 //@   ensures #success-means-level-recorded result == nil ==> d.CurrentPriv == target && acquired == target
